@@ -78,3 +78,12 @@ VARIANTS += [
          old="            if deepcopy:\n                trials = copy.deepcopy(trials)\n            else:\n                # This copy is required for the replacing trick in `set_trial_xxx`.\n                trials = copy.copy(trials)\n\n        return trials\n",
          new="        if deepcopy:\n            trials = copy.deepcopy(trials)\n        else:\n            # This copy is required for the replacing trick in `set_trial_xxx`.\n            trials = copy.copy(trials)\n\n        return trials\n"),
 ]
+
+VARIANTS += [
+    dict(id="c03-inmem-read-then-swap", prop="C03", file=IM, expect="R03.7",
+         old="    def set_trial_system_attr(self, trial_id: int, key: str, value: JSONSerializable) -> None:\n        with self._lock:\n            trial = self._get_trial(trial_id)\n            self.check_trial_is_updatable(trial_id, trial.state)\n\n            trial = copy.copy(trial)\n            trial.system_attrs = copy.copy(trial.system_attrs)\n            trial.system_attrs[key] = value\n            self._set_trial(trial_id, trial)\n",
+         new="    def set_trial_system_attr(self, trial_id: int, key: str, value: JSONSerializable) -> None:\n        trial = self.get_trial(trial_id)\n        self.check_trial_is_updatable(trial_id, trial.state)\n        trial = copy.copy(trial)\n        trial.system_attrs = copy.copy(trial.system_attrs)\n        trial.system_attrs[key] = value\n        with self._lock:\n            self._set_trial(trial_id, trial)\n"),
+    dict(id="c03-journal-two-regions", prop="C03", file=JS, expect="R03",
+         old="        with self._thread_lock:\n            self._write_log(JournalOperation.SET_TRIAL_USER_ATTR, log)\n            self._sync_with_backend()\n",
+         new="        with self._thread_lock:\n            self._write_log(JournalOperation.SET_TRIAL_USER_ATTR, log)\n        with self._thread_lock:\n            self._sync_with_backend()\n"),
+]
